@@ -22,6 +22,7 @@ JOBS = [
     ("py2v_entry.py", "Gen/EntryGen.v"),
     ("py2v_prior.py", "Gen/PriorGen.v"),
     ("py2v_write.py", "Gen/WriteGen.v"),
+    ("py2v_mcmc.py", "Gen/McmcGen.v"),
 ]
 if __name__ == "__main__":
     repo, coq = sys.argv[1], sys.argv[2]
